@@ -1,7 +1,7 @@
 /-
 C10 driver.  case (see harness/src/bin/c10.rs):
   {"cfg":{"ipc","ihc","ihdc"}, "markers":[{"name","regex","tr":[{"type","opts"}]}], "vars":[{"name","kind","arg","def","tr"}],
-   "path", "host", "hdrs":[{"name","value"}], "target", "hf":[..], "bf":[..],
+   "path", "host", "hdrs":[{"name","value"}], "target", "hf":[..], "bf":[..], "hbf":[[value,inner|null]..],
    "req":{"path","host","scheme","method","hdrs":[[n,v]..]},
    "inst":[[name,value]..]?, "delim":bool?}
 "m" = the model: `Rule.matches`, `Rule.capture` with the executable engine, `Rule.outcomes` (sequential replace with the
@@ -67,6 +67,8 @@ def parseVar (j : Json) : Except String Variable := do
     | "method" => pure .requestMethod
     | "path" => pure .requestPath
     | "scheme" => pure .requestScheme
+    | "ip" => pure .requestRemoteAddress
+    | "time" => pure .requestTime
     | _ => throw "var kind"
   return ⟨name, kind, ← parseTransformers j "tr"⟩
 
@@ -94,13 +96,16 @@ def optB (j : Json) (k : String) : Bool :=
 
 def jOutcome (o : Outcome) : Json :=
   Json.mkObj [("loc", toJson (o.location.map S)), ("hf", toJson (o.headers.map S)), ("bf", toJson (S o.body)),
+    ("hb", Json.arr (o.html.map fun p => Json.arr #[toJson (S p.1), toJson (S p.2)]).toArray),
     ("target", match o.target with | some t => toJson (S t) | none => Json.null)]
 
 /-- Sort key shared with the harness. -/
 def outcomeKey (o : Outcome) : String :=
   let sep1 := String.singleton (Char.ofNat 1)
   let sep2 := String.singleton (Char.ofNat 2)
+  let sep4 := String.singleton (Char.ofNat 4)
   sep2.intercalate (o.location.map S) ++ sep1 ++ sep2.intercalate (o.headers.map S) ++ sep1 ++ S o.body ++ sep1 ++
+    sep2.intercalate (o.html.map fun p => S p.1 ++ sep4 ++ S p.2) ++ sep1 ++
     (match o.target with | some t => S t | none => String.singleton (Char.ofNat 3))
 
 def sortOutcomes (os : List Outcome) : List Outcome :=
@@ -142,8 +147,77 @@ def handleSub (j : Json) : Except String Json := do
   return Json.mkObj ([("m", m), ("s", s), ("tags", toJson tags)] ++
     (match sig with | some g => [("sig", toJson g)] | none => []))
 
+/-- All decompositions of `s` along `ts` (`acc re v` = `v` is accepted by the expression, `ceq` = literal comparison). -/
+def decompAll (acc : Str → Str → Bool) (ceq : Char → Char → Bool) : List Tok → Str → List (List (Str × Str))
+  | [], s => if s.isEmpty then [[]] else []
+  | .lit c :: ts, s =>
+    match s with
+    | d :: rest => if ceq c d then decompAll acc ceq ts rest else []
+    | [] => []
+  | .grp n re :: ts, s =>
+    (List.range (s.length + 1)).flatMap fun k =>
+      if acc re (s.take k) then (decompAll acc ceq ts (s.drop k)).map fun vs => (n, s.take k) :: vs else []
+
+def firstValues (vs : List (Str × Str)) : List (Str × Str) :=
+  vs.foldl (fun m p => if m.any (·.1 == p.1) then m else m ++ [p]) []
+
+def sortPairs (l : List (Str × Str)) : List (Str × Str) :=
+  (l.toArray.qsort fun a b => S a.1 < S b.1 || (a.1 == b.1 && S a.2 < S b.2)).toList
+
+/-- `{"kind":"law","ic","ts":[["l",c]|["g",name,re]..],"s"}`: "m" = the stand-in engine on the rendered patterns, "s" = the
+decomposition semantics of the engine laws (captures: the engine's own if they are the first-occurrence values of some
+decomposition). -/
+def handleLaw (j : Json) : Except String Json := do
+  let ic := optB j "ic"
+  let hay := L (← Drv.str? j "s")
+  let ts ← (← Drv.arr? j "ts").toList.mapM fun t => match t with
+    | .arr #[.str "l", .str c] => match c.toList with
+      | [ch] => pure (Tok.lit ch)
+      | _ => throw "lit token"
+    | .arr #[.str "g", .str n, .str re] => pure (Tok.grp (L n) (L re))
+    | _ => throw "token"
+  let regex := renderRegex ts
+  let capture := renderCapture ts
+  let anch (p : Str) : Str := ['^'] ++ p ++ ['$']
+  if !(Engine.compiles (anch regex) && Engine.compiles regex && Engine.compiles (anch capture)) then
+    return Json.mkObj [("m", Json.mkObj [("regex", toJson (S regex)), ("capture", toJson (S capture)), ("compile", false)])]
+  let full := Engine.isMatch ic (anch regex) hay
+  let search := Engine.isMatch ic regex hay
+  let caps := (Engine.captures ic (anch capture) hay).map sortPairs
+  let jc (c : Option (List (Str × Str))) : Json := match c with
+    | none => Json.null
+    | some l => Json.arr (l.map fun p => Json.arr #[toJson (S p.1), toJson (S p.2)]).toArray
+  let m := Json.mkObj [("regex", toJson (S regex)), ("capture", toJson (S capture)), ("full", full), ("search", search),
+    ("caps", jc caps)]
+  let acc : Str → Str → Bool := fun re v => Engine.isMatch ic (anch (groupRegex re)) v
+  let ceq : Char → Char → Bool := fun a b => a == b || (ic && Engine.lowerAscii a == Engine.lowerAscii b)
+  let all := decompAll acc ceq ts hay
+  let anySub := (List.range (hay.length + 1)).any fun a => (List.range (hay.length - a + 1)).any fun k =>
+    !(decompAll acc ceq ts ((hay.drop a).take k)).isEmpty
+  let sCaps : Option (List (Str × Str)) :=
+    match caps with
+    | none => if all.isEmpty then none else some [(L "?", L "a decomposition exists but the engine captured nothing")]
+    | some c => if all.any (fun vs => sortPairs (firstValues vs) == c) then some c
+                else some [(L "?", L "not the first-occurrence values of a decomposition")]
+  let s := Json.mkObj [("regex", toJson (S regex)), ("capture", toJson (S capture)), ("full", !all.isEmpty), ("search", anySub),
+    ("caps", jc sCaps)]
+  return Json.mkObj [("m", m), ("s", s), ("sig", "engine-law"),
+    ("tags", toJson (if all.length > 1 then ["law:ambiguous"] else ([] : List String)))]
+
+/-- `{"kind":"tr","chain":[..],"vals":[..]}`: the chain on raw strings; "s" = the composition of the recognised
+transformers in list order (`transformers_in_order`). -/
+def handleTr (j : Json) : Except String Json := do
+  let chain ← parseTransformers j "chain"
+  let vals ← strList j "vals"
+  let m := toJson (vals.map fun v => S (applyTransformers asciiCase chain v))
+  let s := toJson (vals.map fun v =>
+    S ((chain.filterMap Transformer.toTransform).foldl (fun acc tr => tr.apply asciiCase acc) v))
+  return Json.mkObj [("m", m), ("s", s)]
+
 def handle (j : Json) : Except String Json := do
   if (j.getObjValAs? String "kind").toOption == some "sub" then return ← handleSub j
+  if (j.getObjValAs? String "kind").toOption == some "tr" then return ← handleTr j
+  if (j.getObjValAs? String "kind").toOption == some "law" then return ← handleLaw j
   let cfgJ := (j.getObjVal? "cfg").toOption.getD (Json.mkObj [])
   let cfg : Config := ⟨optB cfgJ "ipc", optB cfgJ "ihc", optB cfgJ "ihdc"⟩
   let markers ← (← Drv.arr? j "markers").toList.mapM parseMarker
@@ -152,11 +226,23 @@ def handle (j : Json) : Except String Json := do
     return (L (← Drv.str? h "name"), L (← Drv.str? h "value"))
   let rule : Rule :=
     { path := L (← Drv.str? j "path"), host := ← optStrL j "host", headers := hdrs, markers := markers, variables := vars,
-      target := ← optStrL j "target", headerFilters := ← strList j "hf", bodyFilters := ← strList j "bf" }
+      target := ← optStrL j "target", headerFilters := ← strList j "hf", bodyFilters := ← strList j "bf",
+      htmlFilters := ← (← optArr j "hbf").mapM fun f => match f with
+        | .arr #[.str a, .str b] => pure (L a, some (L b))
+        | .arr #[.str a, .null] => pure (L a, none)
+        | .arr #[.str a] => pure (L a, none)
+        | _ => throw "hbf" }
   let rq ← Drv.obj? j "req"
   let cf := asciiCase
-  let q := Request.fromConfig cf cfg (L (← Drv.str? rq "path")) (← optStrL rq "host") (← optStrL rq "scheme")
+  let q0 := Request.fromConfig cf cfg (L (← Drv.str? rq "path")) (← optStrL rq "host") (← optStrL rq "scheme")
     (← optStrL rq "method") (← pairList rq "hdrs")
+  let time : Option TimeInfo ← match rq.getObjVal? "time" with
+    | .error _ => pure none
+    | .ok .null => pure none
+    | .ok t => do
+      let year ← t.getObjValAs? Int "year"
+      pure (some ⟨year, ((← optStrL t "rfc2822").getD []), L (← Drv.str? t "rfc3339")⟩)
+  let q := { q0 with remoteAddr := ← optStrL rq "ip", createdAt := time }
   let E := stdEngine
   -- model
   let matched := rule.matches E cf cfg q
@@ -179,7 +265,8 @@ def handle (j : Json) : Except String Json := do
            else Json.mkObj [("match", false)]
   -- classification of a disagreement
   let vsM := rule.variablesUnsorted cf captured q
-  let templates := (match rule.target with | some t => [t] | none => []) ++ rule.headerFilters ++ rule.bodyFilters
+  let templates := (match rule.target with | some t => [t] | none => []) ++ rule.headerFilters ++ rule.bodyFilters ++
+    rule.htmlFilters.flatMap fun f => [f.1, f.2.getD f.1]
   let sameCaps := captured.all (fun p => sCaptured.lookup p.1 == some p.2) && sCaptured.all (fun p => captured.lookup p.1 == some p.2)
   -- a rejected value only in header triggers (the other layers accept their values)
   let rejectedOnlyInHeaders := usable && !sMatch &&
